@@ -2,19 +2,36 @@
    input is given raw or already normalised (declared log2CPM), to the order of the gene
    columns and (normalised input) to genes that are not markers; raw input with a negative
    value is rejected.
-   Property theorems only: each is closed by `exact <lemma>` (Proofs/NormalizeP.v).
+   Property theorems only: each is closed by `exact <lemma>` (Proofs/NormalizeP.v,
+   Proofs/NormalizeVoteP.v).
 
-   prepare_query R lg genes input lists  (Model/Normalize.v) is everything the election sees of
-   the query: one matrix per parent node, columns = that parent's markers in REFERENCE order.
-   The bootstrap subsets index these columns, and the reference side does not depend on the
-   query at all; so equality of prepare_query is equality of every vote, for every bootstrap
-   factor and every random stream (C02's tally is a function of these matrices).
+   Two layers.
+   (A) Theorems about prepare_query R lg genes input lists (Model/Normalize.v): one matrix per
+       parent node, columns = that parent's markers in REFERENCE order.
+   (B) The link to the RESULT: c07_equal_profile_equal_vote / c07_equal_parent_matrix_equal_vote
+       (the vote model of C01-C03, Model/VoteDecide.v, receives the query only through
+       q_at cell parent = that cell's row on that parent's markers; q_of reads this row out of
+       the prepared matrices) and the composed theorems c07_*_vote, which state each relation
+       of (A) as "every vote record and every decision (generator state included) is the
+       same", for every reference side, bootstrap draw, n_assign and parent.
 
    R, lg : the type of normalised values and v |-> log2(1 + v).  Nothing is assumed about lg
    except, where stated, that it depends only on the VALUE of the fraction it is given
-   (hypothesis written out in each theorem that needs it). *)
+   (hypothesis written out in each theorem that needs it).  In (B) R := Z: the vote model
+   works on exact integers scaled by a common power of two, lg stays abstract.
+
+   DOMAIN (read this before quoting a theorem).  Raw values are INTEGER counts (Z) and a scale
+   factor is an integer k > 0, or a rational b/a relating two INTEGER matrices
+   (a * x = b * y entry-wise).  The real code accepts any numeric dtype.  What was measured on
+   the real code (harness/props/c07.py states it in its assumptions): for integer counts and
+   integer factors (and for any power of two) log2CPM is bitwise equal; for a non-integer
+   factor (0.3, 1.7) or non-integer raw values it differs in the last bits (<= 3.6e-15
+   absolute, 2.2e-16 relative) -- a floating-point effect outside these exact-arithmetic
+   theorems, for which the property asks only that the MAPPING be unchanged at bootstrap
+   factor 1 (the paired runs of the tie check exactly that, with near ties excused). *)
 From Coq Require Import ZArith List Bool Permutation.
-From CTM Require Import Base.Sx Base.SortX Model.Normalize Proofs.NormalizeP.
+From CTM Require Import Base.Sx Base.SortX Model.Tree Model.Vote Model.Election Model.VoteDecide
+                        Model.NormalizeVote Model.Normalize Proofs.NormalizeP Proofs.NormalizeVoteP.
 Import ListNotations.
 Open Scope Z_scope.
 
@@ -42,9 +59,37 @@ Theorem c07_scale_invariant_rational :
 Proof. exact scale_invariant_rational. Qed.
 Print Assumptions c07_scale_invariant_rational.
 
+(* ... and at the level of prepare_query: two INTEGER matrices whose rows are related by
+   positive rational factors (row i: a_i * x = b_i * y entry-wise, a_i, b_i > 0; written once
+   with the factors existentially per row and once with explicit factor lists) are prepared
+   identically -- error cases included (a negative entry on one side is a negative entry on the
+   other).  Integer restriction: this covers a factor b/a only BETWEEN TWO INTEGER MATRICES;
+   a non-integer raw matrix is outside the model (see DOMAIN above). *)
+Theorem c07_scale_invariant_rational_matrix :
+  forall (R : Type) (lg : frac -> R),
+  (forall a b, 0 < snd a -> 0 < snd b -> feq a b -> lg a = lg b) ->
+  (forall genes d1 d2 lists,
+     Forall2 (fun r1 r2 => exists a b, 0 < a /\ 0 < b /\ Forall2 (fun x y => a * x = b * y) r1 r2) d1 d2 ->
+     prepare_query R lg genes (DeclRaw d1) lists = prepare_query R lg genes (DeclRaw d2) lists) /\
+  (forall (las lbs : list Z) genes d1 d2 lists,
+     Forall (fun a => 0 < a) las -> Forall (fun b => 0 < b) lbs ->
+     length las = length d1 -> length lbs = length d1 -> length d2 = length d1 ->
+     (forall i, (i < length d1)%nat ->
+        Forall2 (fun x y => nth i las 1 * x = nth i lbs 1 * y) (nth i d1 []) (nth i d2 [])) ->
+     prepare_query R lg genes (DeclRaw d1) lists = prepare_query R lg genes (DeclRaw d2) lists).
+Proof. exact scale_invariant_rational_matrix. Qed.
+Print Assumptions c07_scale_invariant_rational_matrix.
+
 (* (2) raw input mapped = its log2CPM matrix declared normalised (for EVERY lg, every gene set,
    every marker table; error cases included): normalisation happens on the full gene set,
-   before any column is selected *)
+   before any column is selected.
+   HONEST LABEL: true by construction of the model -- after the negative check both branches of
+   prepare_query build the same term (the proof unfolds and compares the shape checks).  What it
+   records is the ORDER normalise-then-select in the model; that the real code has this order
+   is established by the tie: harness/props/c07.py compares the real preparation
+   (real_prepare) and the real run_mapping / run_type_assignment on raw input against the same
+   matrix normalised by the harness and declared log2CPM.  c07_downsample_then_normalise_differs
+   shows the other order would give different values. *)
 Theorem c07_raw_equals_declared_normalised :
   forall (R : Type) (lg : frac -> R) genes d lists,
   has_negative d = false ->
@@ -92,7 +137,13 @@ Proof. exact prepare_agree_assoc. Qed.
 Print Assumptions c07_only_marker_values_by_name_matter.
 
 (* (5) raw input with a negative value is never mapped; the error is the negative-value error
-   whenever the marker table itself is usable *)
+   whenever the marker table itself is usable.
+   HONEST LABEL: part 1 needs the case analysis on the marker cache; part 2 is an unfolding of
+   prepare_query (by construction of the model: the negative check is the first thing done
+   after the marker cache).  The content is in the tie: harness/props/c07.py feeds the real
+   run_mapping a raw matrix with one negative value (dense/csr/csc, chunked, the negative value
+   in a block that also holds a new maximum) and requires rejection, and compares the error
+   kinds of the real preparation with the model's. *)
 Theorem c07_negative_raw_rejected :
   forall (R : Type) (lg : frac -> R) genes d lists,
   has_negative d = true ->
@@ -101,13 +152,156 @@ Theorem c07_negative_raw_rejected :
 Proof. exact negative_raw_both. Qed.
 Print Assumptions c07_negative_raw_rejected.
 
-(* (6) the guard: whatever downsample_genes returns cannot be normalised any more *)
+(* (6) the guard: whatever downsample_genes returns cannot be normalised any more.
+   HONEST LABEL: by construction of the model (downsample_genes sets the flag, to_log2cpm tests
+   it: a two-line unfolding).  The content is in the tie: harness/props/c07.py (ops_cases) runs
+   random sequences of the real CellByGeneMatrix.to_log2CPM(_in_place) / downsample_genes
+   (_in_place) against make_cbg / to_log2cpm / downsample_genes, the guard included. *)
 Theorem c07_normalise_after_downsample_rejected :
   forall (R : Type) (lg : frac -> R) (m m' : cbg Z) sel,
   downsample_genes m sel = Ok m' ->
   to_log2cpm R lg m' = Err (match c_norm m with Raw => EDownsampled | Log2CPM => ENotRaw end).
 Proof. exact normalise_after_downsample_rejected. Qed.
 Print Assumptions c07_normalise_after_downsample_rejected.
+
+(* ---------------- (B) the link to the votes ---------------- *)
+
+(* THE BRIDGE.  vote_record (one cell at one parent) and decide_vote (all cells routed to one
+   parent in one call: one draw of bootstrap subsets, the records, the generator state handed
+   on) take the query through q_at only.  If two queries give cell c the same row on the
+   markers of parent p, c gets the same record at p; if they do so for every cell of the call,
+   the whole decision at p is the same, generator state included -- for every reference side
+   (refs_at, owners_at), every generator and draw, every n_assign, every kids / subsets.
+   Hypothesis only about the rows on THAT parent's markers.
+   The correlation oracle is taken as a function of the ROW (corr_row corr_of q := fun c p w =>
+   corr_of (q c p) p w): the real avg_correlation of a cell is computed from the same row of the
+   same per-parent matrix (and reference data).  Using ONE oracle corr_at for both queries
+   would assume what is to be shown (that the reported correlation did not change with the
+   query); making it a function of the row lets it change with the query and shows it does not
+   when the row is the same.
+   HONEST LABEL: once stated, the proof is a rewrite -- this is "by construction" of
+   Model/VoteDecide.v.  Its content is the SHAPE of that model (the query enters through q_at
+   and nowhere else); that the real election has this shape is what the ties check:
+   harness/props/c02.py recomputes every vote of real runs from these per-parent rows, and
+   harness/props/c07.py compares the per-parent matrices the real code hands to the election. *)
+Theorem c07_equal_profile_equal_vote :
+  forall (cell rng : Type) (refs_at : parent -> list vec) (owners_at : parent -> list Z)
+         (draw : rng -> parent -> list (list nat) * rng) (n_assign : nat)
+         (corr_of : vec -> parent -> Z -> Election.frac) (q1 q2 : cell -> parent -> vec) (p : parent),
+  (forall kids subsets c, q1 c p = q2 c p ->
+     vote_record cell refs_at owners_at q1 n_assign (corr_row corr_of q1) p kids subsets c =
+     vote_record cell refs_at owners_at q2 n_assign (corr_row corr_of q2) p kids subsets c) /\
+  (forall g kids cs, (forall c, In c cs -> q1 c p = q2 c p) ->
+     decide_vote cell rng refs_at owners_at q1 draw n_assign (corr_row corr_of q1) g p kids cs =
+     decide_vote cell rng refs_at owners_at q2 draw n_assign (corr_row corr_of q2) g p kids cs).
+Proof. exact equal_profile_equal_vote. Qed.
+Print Assumptions c07_equal_profile_equal_vote.
+
+(* the same with the query read out of prepared matrices (q_of: cell = row index, pidx p = the
+   position of p's marker list in `lists`): only the matrix of parent p matters at p *)
+Theorem c07_equal_parent_matrix_equal_vote :
+  forall (rng : Type) (refs_at : parent -> list vec) (owners_at : parent -> list Z)
+         (draw : rng -> parent -> list (list nat) * rng) (n_assign : nat)
+         (corr_of : vec -> parent -> Z -> Election.frac) (pidx : parent -> nat) (m1 m2 : list (list vec)) (p : parent),
+  nth (pidx p) m1 [] = nth (pidx p) m2 [] ->
+  (forall kids subsets c,
+     vote_record_on refs_at owners_at n_assign corr_of pidx m1 p kids subsets c =
+     vote_record_on refs_at owners_at n_assign corr_of pidx m2 p kids subsets c) /\
+  (forall g kids cs,
+     decide_on rng refs_at owners_at draw n_assign corr_of pidx m1 g p kids cs =
+     decide_on rng refs_at owners_at draw n_assign corr_of pidx m2 g p kids cs).
+Proof. exact equal_parent_matrix_equal_vote. Qed.
+Print Assumptions c07_equal_parent_matrix_equal_vote.
+
+(* THE COMPOSED STATEMENTS: each relation of (A), said about the result.  Each is the
+   prepare_query theorem of (A) composed with the bridge, and is short for that reason: once
+   the prepared matrices are equal everything downstream is a function of them.  The content
+   is (i) the theorem of (A) and (ii) the shape of the vote model (bridge above).
+   Both preparations are assumed to succeed (if one fails so does the other, with the same
+   error: that is the equality of (A)).
+
+   (1v) scale, written out in full; the conclusion is `same_votes m1 m2` of
+   Model/NormalizeVote.v unfolded *)
+Theorem c07_scale_invariant_vote :
+  forall (lg : frac -> Z),
+  (forall a b, 0 < snd a -> 0 < snd b -> feq a b -> lg a = lg b) ->
+  forall ks genes d lists m1 m2,
+  Forall (fun k => 0 < k) ks -> length ks = length d ->
+  prepare_query Z lg genes (DeclRaw (scale_rows ks d)) lists = Ok m1 ->
+  prepare_query Z lg genes (DeclRaw d) lists = Ok m2 ->
+  m1 = m2 /\
+  (forall (refs_at : parent -> list vec) (owners_at : parent -> list Z) (n_assign : nat)
+          (corr_of : vec -> parent -> Z -> Election.frac) (pidx : parent -> nat) p kids subsets c,
+     vote_record nat refs_at owners_at (q_of pidx m1) n_assign (corr_row corr_of (q_of pidx m1)) p kids subsets c =
+     vote_record nat refs_at owners_at (q_of pidx m2) n_assign (corr_row corr_of (q_of pidx m2)) p kids subsets c) /\
+  (forall (rng : Type) (refs_at : parent -> list vec) (owners_at : parent -> list Z)
+          (draw : rng -> parent -> list (list nat) * rng) (n_assign : nat)
+          (corr_of : vec -> parent -> Z -> Election.frac) (pidx : parent -> nat) g p kids cs,
+     decide_vote nat rng refs_at owners_at (q_of pidx m1) draw n_assign (corr_row corr_of (q_of pidx m1)) g p kids cs =
+     decide_vote nat rng refs_at owners_at (q_of pidx m2) draw n_assign (corr_row corr_of (q_of pidx m2)) g p kids cs).
+Proof. exact scale_invariant_vote. Qed.
+Print Assumptions c07_scale_invariant_vote.
+
+(* (1v') rational factors between two integer matrices *)
+Theorem c07_scale_invariant_rational_vote :
+  forall (lg : frac -> Z),
+  (forall a b, 0 < snd a -> 0 < snd b -> feq a b -> lg a = lg b) ->
+  forall genes d1 d2 lists m1 m2,
+  Forall2 (fun r1 r2 => exists a b, 0 < a /\ 0 < b /\ Forall2 (fun x y => a * x = b * y) r1 r2) d1 d2 ->
+  prepare_query Z lg genes (DeclRaw d1) lists = Ok m1 ->
+  prepare_query Z lg genes (DeclRaw d2) lists = Ok m2 ->
+  same_votes m1 m2.
+Proof. exact scale_rational_vote. Qed.
+Print Assumptions c07_scale_invariant_rational_vote.
+
+(* (2v) raw vs declared normalised (every lg) *)
+Theorem c07_raw_equals_declared_vote :
+  forall (lg : frac -> Z) genes d lists m1 m2,
+  has_negative d = false ->
+  prepare_query Z lg genes (DeclRaw d) lists = Ok m1 ->
+  prepare_query Z lg genes (DeclNorm (map (log2cpm_row Z lg) d)) lists = Ok m2 ->
+  same_votes m1 m2.
+Proof. exact raw_equals_declared_vote. Qed.
+Print Assumptions c07_raw_equals_declared_vote.
+
+(* (3v) gene permutation, raw and declared-normalised input (every lg) *)
+Theorem c07_gene_permutation_vote :
+  forall (lg : frac -> Z) p genes lists,
+  NoDup genes -> Permutation p (seq 0 (length genes)) ->
+  (forall (d : list (list Z)) m1 m2, Forall (fun r => length r = length genes) d ->
+     prepare_query Z lg (permute p genes) (DeclRaw (map (permute p) d)) lists = Ok m1 ->
+     prepare_query Z lg genes (DeclRaw d) lists = Ok m2 ->
+     same_votes m1 m2) /\
+  (forall (d : list (list Z)) m1 m2, Forall (fun r => length r = length genes) d ->
+     prepare_query Z lg (permute p genes) (DeclNorm (map (permute p) d)) lists = Ok m1 ->
+     prepare_query Z lg genes (DeclNorm d) lists = Ok m2 ->
+     same_votes m1 m2).
+Proof. exact gene_permutation_vote. Qed.
+Print Assumptions c07_gene_permutation_vote.
+
+(* (4v) extra non-marker genes, and agreement by name on the markers (declared-normalised) *)
+Theorem c07_extra_genes_vote :
+  forall (lg : frac -> Z) (keep : Z -> bool) genes (d : list (list Z)) lists m1 m2,
+  NoDup genes -> Forall (fun r => length r = length genes) d ->
+  (forall g, In g (concat lists) -> keep g = true) ->
+  prepare_query Z lg (filter keep genes) (DeclNorm (map (drop_cols keep genes) d)) lists = Ok m1 ->
+  prepare_query Z lg genes (DeclNorm d) lists = Ok m2 ->
+  same_votes m1 m2.
+Proof. exact extra_genes_vote. Qed.
+Print Assumptions c07_extra_genes_vote.
+
+Theorem c07_only_marker_values_by_name_vote :
+  forall (lg : frac -> Z) genes genes' (d d' : list (list Z)) lists m1 m2,
+  NoDup genes -> NoDup genes' ->
+  Forall (fun r => length r = length genes) d -> Forall (fun r => length r = length genes') d' ->
+  (forall g, In g (concat lists) -> (In g genes <-> In g genes')) ->
+  Forall2 (fun row row' => forall g, In g (concat lists) ->
+             zassoc g (combine genes row) = zassoc g (combine genes' row')) d d' ->
+  prepare_query Z lg genes (DeclNorm d) lists = Ok m1 ->
+  prepare_query Z lg genes' (DeclNorm d') lists = Ok m2 ->
+  same_votes m1 m2.
+Proof. exact marker_values_by_name_vote. Qed.
+Print Assumptions c07_only_marker_values_by_name_vote.
 
 (* ---------------- non-vacuity ---------------- *)
 
@@ -182,3 +376,101 @@ Example c07_example_rejections :
   prepare_query frac fnorm [10; 20; 10] (DeclRaw [[1; 1; 2]]) [[20]] = Err EDupGenes /\
   prepare_query frac fnorm [10; 20; 30] (DeclRaw [[1; 1]]) [[20]] = Err EShape.
 Proof. vm_compute. repeat split; reflexivity. Qed.
+
+(* two declared-normalised inputs with DIFFERENT gene sets (100 only left, 7 only right) and
+   different column orders that give the markers 30, 10, 20 the same values by name: all
+   hypotheses of c07_only_marker_values_by_name_matter hold and both sides are the same
+   successful result *)
+Example c07_example_by_name :
+  let genes := [100; 10; 20; 30] in let genes' := [30; 7; 20; 10] in
+  let lists := [[30; 10]; [20]] in
+  let d  := [[(9, 1); (1, 2); (3, 4); (5, 8)]; [(2, 1); (1, 4); (0, 1); (7, 8)]] in
+  let d' := [[(5, 8); (4, 1); (3, 4); (1, 2)]; [(7, 8); (6, 1); (0, 1); (1, 4)]] in
+  NoDup genes /\ NoDup genes' /\
+  Forall (fun r => length r = length genes) d /\ Forall (fun r => length r = length genes') d' /\
+  (forall g, In g (concat lists) -> (In g genes <-> In g genes')) /\
+  Forall2 (fun row row' => forall g, In g (concat lists) ->
+             zassoc g (combine genes row) = zassoc g (combine genes' row')) d d' /\
+  prepare_query frac fnorm genes (DeclNorm d) lists =
+    Ok [[[(5, 8); (1, 2)]; [(7, 8); (1, 4)]]; [[(3, 4)]; [(0, 1)]]] /\
+  prepare_query frac fnorm genes' (DeclNorm d') lists =
+    Ok [[[(5, 8); (1, 2)]; [(7, 8); (1, 4)]]; [[(3, 4)]; [(0, 1)]]].
+Proof.
+  cbv zeta. split; [|split; [|split; [|split; [|split; [|split; [|split]]]]]].
+  - repeat constructor; simpl; intuition discriminate.
+  - repeat constructor; simpl; intuition discriminate.
+  - repeat constructor.
+  - repeat constructor.
+  - intros g Hg. simpl in Hg. destruct Hg as [Hg|[Hg|[Hg|Hg]]]; [subst g|subst g|subst g|contradiction];
+      split; intros _; simpl; auto 10.
+  - repeat constructor; intros g Hg; simpl in Hg;
+      (destruct Hg as [Hg|[Hg|[Hg|Hg]]]; [subst g|subst g|subst g|contradiction]); reflexivity.
+  - vm_compute. reflexivity.
+  - vm_compute. reflexivity.
+Qed.
+
+(* the rational relation at matrix level: factors 3/2 and 5/7 (and an all-zero cell) between two
+   integer matrices; both sides succeed with the same matrices *)
+Example c07_example_rational_matrix :
+  let d1 := [[6; 12; 6]; [0; 0; 0]; [14; 0; 7]] in let d2 := [[4; 8; 4]; [0; 0; 0]; [10; 0; 5]] in
+  Forall2 (fun r1 r2 => exists a b, 0 < a /\ 0 < b /\ Forall2 (fun x y => a * x = b * y) r1 r2) d1 d2 /\
+  prepare_query frac fnorm [10; 20; 30] (DeclRaw d1) [[30; 10]; [20]] =
+    Ok [[[(250000, 1); (250000, 1)]; [(0, 1); (0, 1)]; [(1000000, 3); (2000000, 3)]]; [[(500000, 1)]; [(0, 1)]; [(0, 1)]]] /\
+  prepare_query frac fnorm [10; 20; 30] (DeclRaw d2) [[30; 10]; [20]] =
+    Ok [[[(250000, 1); (250000, 1)]; [(0, 1); (0, 1)]; [(1000000, 3); (2000000, 3)]]; [[(500000, 1)]; [(0, 1)]; [(0, 1)]]].
+Proof.
+  cbv zeta. split; [|split; vm_compute; reflexivity].
+  constructor; [exists 2, 3 | constructor; [exists 1, 1 | constructor; [exists 5, 7 | constructor]]];
+    (split; [reflexivity | split; [reflexivity | repeat constructor]]).
+Qed.
+
+(* the bridge on concrete numbers: 3 cells (one all-zero), 2 parents (the root with markers
+   30, 10, 20 and the node (0, 1) with markers 20, 10), R := Z with the value-extensional
+   lgz = floor(2^10 * v); per-cell factors 3, 5, 2.  Both preparations succeed with the same
+   integer matrices, every cell has a record at both parents (cell 2 splits its votes 3 : 2 at
+   the root and has a runner-up), and the decision at the root hands on the advanced generator
+   state.  So the hypotheses of c07_scale_invariant_vote are satisfiable and its conclusion
+   speaks about actual records. *)
+Example c07_example_vote_bridge :
+  let genes := [10; 20; 30] in let lists := [[30; 10; 20]; [20; 10]] in
+  let d := [[2; 4; 2]; [0; 0; 0]; [1; 5; 2]] in let ks := [3; 5; 2] in
+  let pidx := fun p : parent => match p with None => 0%nat | Some _ => 1%nat end in
+  let refs_at := fun p : parent => match p with None => [[1; 5; 9]; [9; 5; 1]; [2; 9; 3]] | Some _ => [[1; 7]; [8; 2]] end in
+  let owners_at := fun p : parent => match p with None => [1; 2; 3] | Some _ => [3; 4] end in
+  let corr_of := fun (q : vec) (p : parent) (w : Z) => (zsum q + w, 7) in
+  let subsets := [[0; 1; 2]; [0; 1]; [0; 2]; [1; 2]; [1; 0]]%nat in
+  let subsets' := [[0; 1]; [1; 0]; [0; 1]]%nat in
+  let draw := fun (g : nat) (p : parent) => (match p with None => subsets | Some _ => subsets' end, S g) in
+  let m := [[[256000000; 256000000; 512000000]; [0; 0; 0]; [256000000; 128000000; 640000000]];
+            [[512000000; 256000000]; [0; 0]; [640000000; 128000000]]] in
+  (forall a b, 0 < snd a -> 0 < snd b -> feq a b -> lgz a = lgz b) /\
+  Forall (fun k => 0 < k) ks /\ length ks = length d /\
+  scale_rows ks d = [[6; 12; 6]; [0; 0; 0]; [2; 10; 4]] /\
+  prepare_query Z lgz genes (DeclRaw (scale_rows ks d)) lists = Ok m /\
+  prepare_query Z lgz genes (DeclRaw d) lists = Ok m /\
+  map (vote_record nat refs_at owners_at (q_of pidx m) 2 (corr_row corr_of (q_of pidx m)) None [1; 2; 3] subsets) [0; 1; 2]%nat =
+    [Some {| asg := 1; prob := (5, 5); corr := Some (1024000001, 7); runners := []; agg := (1, 1) |};
+     Some {| asg := 1; prob := (5, 5); corr := Some (1, 7); runners := []; agg := (1, 1) |};
+     Some {| asg := 1; prob := (3, 5); corr := Some (1024000001, 7); runners := [(2, (2, 5), (1024000002, 7))]; agg := (1, 1) |}] /\
+  map (vote_record nat refs_at owners_at (q_of pidx m) 2 (corr_row corr_of (q_of pidx m)) (Some (0%nat, 1)) [3; 4] subsets') [0; 1; 2]%nat =
+    [Some {| asg := 4; prob := (3, 3); corr := Some (768000004, 7); runners := []; agg := (1, 1) |};
+     Some {| asg := 3; prob := (3, 3); corr := Some (3, 7); runners := []; agg := (1, 1) |};
+     Some {| asg := 4; prob := (3, 3); corr := Some (768000004, 7); runners := []; agg := (1, 1) |}] /\
+  snd (decide_vote nat nat refs_at owners_at (q_of pidx m) draw 2 (corr_row corr_of (q_of pidx m)) 7%nat None [1; 2; 3] [0; 1; 2]%nat) = 8%nat /\
+  length (fst (decide_vote nat nat refs_at owners_at (q_of pidx m) draw 2 (corr_row corr_of (q_of pidx m)) 7%nat None [1; 2; 3] [0; 1; 2]%nat)) = 3%nat.
+Proof.
+  cbv zeta. split; [exact lgz_ext|]. split; [repeat constructor|].
+  vm_compute. repeat split; reflexivity.
+Qed.
+
+(* the vote does depend on the row (the bridge is not an equality of constants): the same cell,
+   same reference side, same subsets, two different rows -> two different assignments *)
+Example c07_vote_depends_on_row :
+  let refs_at := fun _ : parent => [[1; 5; 9]; [9; 5; 1]] in
+  let owners_at := fun _ : parent => [1; 2] in
+  let corr_of := fun (q : vec) (_ : parent) (w : Z) => (zsum q + w, 7) in
+  let q1 := fun (_ : nat) (_ : parent) => [1; 2; 4] in
+  let q2 := fun (_ : nat) (_ : parent) => [4; 2; 1] in
+  option_map asg (vote_record nat refs_at owners_at q1 1 (corr_row corr_of q1) None [1; 2] [[0; 1; 2]]%nat 0%nat) = Some 1 /\
+  option_map asg (vote_record nat refs_at owners_at q2 1 (corr_row corr_of q2) None [1; 2] [[0; 1; 2]]%nat 0%nat) = Some 2.
+Proof. vm_compute. split; reflexivity. Qed.
